@@ -77,6 +77,11 @@ class Importer:
             else:
                 for icolumn, column in enumerate(row):
                     if column.startswith("**"):
+                        if self._prev_stage_parents and icolumn >= len(self._prev_stage_parents):
+                            raise ValueError(f'Wrong columns number in row {self._row_number}. '
+                                             f'The header {column} in column #{icolumn} has no spine to start from. '
+                                             f'Expected {len(self._prev_stage_parents)} columns '
+                                             f'but found {len(row)}.')
                         self._compute_header_token(icolumn, column)
                         # go to next row
                         continue
